@@ -118,9 +118,9 @@ theorem fullRen_id (op : UOp) : fullRen id op = op := by
 
 theorem absNode_arr_par {H : Home} {d : Doc} {p c : Ticket} {l : List Ticket} (w : WF H d)
     (hp : absNode d p = some (.arr l)) (hc : c ∈ l) : H.par c = some p := by
-  obtain ⟨pe, nodes, moved, hd, _, hb, rfl⟩ := absNode_arr hp
+  obtain ⟨pe, nodes, moved, hd, hr, hb, rfl⟩ := absNode_arr hp
   obtain ⟨n, hn, hne, _⟩ := mem_ll.1 hc
-  exact w.arrMem _ _ _ _ _ _ hd hb hn hne
+  exact w.arrMem _ _ _ _ _ _ hd hr hb hn hne
 
 theorem absNode_arr_plain {d : Doc} {N : Int} {p : Ticket} {l : List Ticket} (pl : PlainArrs d N)
     (hp : absNode d p = some (.arr l)) : l.Nodup ∧ headId ∉ l ∧ ∀ c ∈ l, c.lamport ≤ N := by
